@@ -14,9 +14,11 @@ R1_MISSED = "C02-m2 C06-m1 C07-m1 C07-m2 C08-m2 C16-m2 C18-m1".split()
 R1_TIE = "C01-m1 C02-m1 C03-m2 C05-m2 C09-m1 C09-m2 C10-m1 C10-m2 C11-m1 C11-m2 C14-m1 C15-m2 C16-m1".split()
 R2_MISSED = "C02-m3 C03-m3 C04-m4 C05-m3 C17-m3".split()
 R2_TIE = "C01-m3 C02-m4 C04-m3 C09-m3 C10-m3 C12-m4 C16-m3".split()
-for k in R1_MISSED + R2_MISSED:
+R3_MISSED = "C03-m6 C08-m6 C14-m6".split()
+R3_TIE = "C03-m5 C05-m6 C09-m5 C09-m6 C10-m5 C11-m6".split()
+for k in R1_MISSED + R2_MISSED + R3_MISSED:
     FIRST[k] = "missed"
-for k in R1_TIE + R2_TIE:
+for k in R1_TIE + R2_TIE + R3_TIE:
     FIRST[k] = "tie only"
 
 
@@ -50,14 +52,14 @@ def main():
                 w = rep.get("witness") or {}
                 if w.get("match"):
                     wit.add(w["match"])
-        rnd = "1" if sid[-1] in "12" else "2"
+        rnd = "1" if sid[-1] in "12" else "2" if sid[-1] in "34" else "3"
         rows.append((sid, rnd, ", ".join(m.get("files", [])).replace("graphslam/", ""), short(m.get("what", ""), 230), short(m.get("needs", ""), 170), FIRST.get(sid, "input"), "yes" if r.get("caught") and r.get("with_failing_input") else ("tie only" if r.get("caught") else "NO"), ", ".join(sorted(ties)) or "–", short(", ".join(sorted(wit)), 90) or "–"))
     with open(os.path.join(V, "selftest", "TABLE.md"), "w") as f:
         f.write("| change | round | file | what was changed | what it needs | at first contact | now | ties that break | witness found by the search (`match`) |\n|---|---|---|---|---|---|---|---|---|\n")
         for row in rows:
             f.write("| " + " | ".join(row) + " |\n")
         n = len(rows)
-        for rnd in ("1", "2"):
+        for rnd in ("1", "2", "3"):
             rr = [x for x in rows if x[1] == rnd]
             f.write("\nround %s: %d changes; at first contact %d caught with a concrete input, %d caught by a broken tie only, %d missed; now %d caught with a concrete input.\n" % (rnd, len(rr), sum(x[5] == "input" for x in rr), sum(x[5] == "tie only" for x in rr), sum(x[5] == "missed" for x in rr), sum(x[6] == "yes" for x in rr)))
     print(open(os.path.join(V, "selftest", "TABLE.md")).read()[-600:])
